@@ -284,3 +284,31 @@ package sipsp
 //@   uninterpreted buf a b
 //@   ensures b <= a ==> r == 0
 //@   ensures b > a ==> r == satstep(satdec(buf, a, b-1), buf[b-1]-'0')
+
+// ---- first line (C08) ----
+
+//@ func ParseFLine(buf, offs, pl) (n, err)
+//@   requires bufOK(buf) && 0 <= offs && offs <= len(buf) && pl != nil && flOK(pl, offs)
+//@   modifies *pl
+//@   ensures 0 <= n && n <= len(buf)
+//@   ensures err == ErrHdrOk || err == ErrHdrMoreBytes ==> offs <= n && flOK(pl, n)
+//@   ensures flOK(pl, len(buf))
+//@   ensures err == ErrHdrOk || err == ErrHdrMoreBytes || err == ErrHdrBadChar || err == ErrHdrNoCR
+//@   requires[C08] pl.state == flInit ==> *pl == PFLine{}
+//@   ensures[C08] "short": pl_old.state == flInit && len(buf)-offs < 14 ==> err == ErrHdrMoreBytes && n == offs
+//@   ensures[C08] "reply": pl_old.state == flInit && err == ErrHdrOk && isReplyStart(buf, offs) ==>
+//@             fieldIs(pl.Version, offs, offs+7) && fieldIs(pl.StatusCode, offs+8, offs+11) &&
+//@             isDigit(buf[offs+8]) && isDigit(buf[offs+9]) && isDigit(buf[offs+10]) && buf[offs+11] == ' ' &&
+//@             int(pl.Status) == 100*int(buf[offs+8]-'0') + 10*int(buf[offs+9]-'0') + int(buf[offs+10]-'0') &&
+//@             int(pl.Reason.Offs) == offs+12 && forall(k, offs+12, fend(pl.Reason), !isCRLF(buf[k])) &&
+//@             fend(pl.Reason) < n && isCRLF(buf[fend(pl.Reason)]) && n == fend(pl.Reason)+eolLen(buf, fend(pl.Reason)) &&
+//@             pl.Method == PField{} && pl.URI == PField{} && !pl.Request()
+//@   ensures[C08] "request": pl_old.state == flInit && err == ErrHdrOk && !isReplyStart(buf, offs) ==>
+//@             int(pl.Method.Offs) == offs && tokenAt(buf, offs, fend(pl.Method)) && buf[fend(pl.Method)] == ' ' &&
+//@             int(pl.URI.Offs) == fend(pl.Method)+1 && tokenAt(buf, int(pl.URI.Offs), fend(pl.URI)) && buf[fend(pl.URI)] == ' ' &&
+//@             int(pl.Version.Offs) == fend(pl.URI)+1 && tokenAt(buf, int(pl.Version.Offs), fend(pl.Version)) && isCRLF(buf[fend(pl.Version)]) &&
+//@             fend(pl.Version) < n && n == fend(pl.Version)+eolLen(buf, fend(pl.Version)) &&
+//@             pl.Status == 0 && pl.StatusCode == PField{} && pl.Reason == PField{} && pl.Request()
+//@   ensures[C08] "reply-never-request-grammar": pl_old.state == flInit && isReplyStart(buf, offs) && err == ErrHdrBadChar ==>
+//@             !(isDigit(buf[offs+8]) && isDigit(buf[offs+9]) && isDigit(buf[offs+10]) && buf[offs+11] == ' ')
+//@   ensures[C08] "fin": err == ErrHdrOk ==> pl.state == flFIN
